@@ -1,0 +1,21 @@
+//go:build verif
+// +build verif
+
+package common
+
+// Contracts for the deductive verifier in /verif (govc).  Comment-only file,
+// compiled only under the build tag `verif`.
+
+//@ property C15
+
+// first ':' splits namespace from the real key; an empty namespace is rejected
+//@ spec firstSep(b []byte, idx int) bool = 0 <= idx && idx < len(b) && b[idx] == ':' && (forall i int :: 0 <= i && i < idx ==> b[i] != ':')
+//@ spec noSep(b []byte) bool = forall i int :: 0 <= i && i < len(b) ==> b[i] != ':'
+
+//@ func CutNamesapce(rawKey []byte) ([]byte, error)
+//@   ensures result1 == nil <==> (exists idx int :: idx >= 1 && firstSep(rawKey, idx))
+//@   ensures result1 == nil ==> (forall idx int :: firstSep(rawKey, idx) ==> sameSlice(result0, rawKey[idx+1:len(rawKey)]))
+
+//@ func ExtractNamesapce(rawKey []byte) (string, []byte, error)
+//@   ensures result2 == nil <==> (exists idx int :: idx >= 1 && firstSep(rawKey, idx))
+//@   ensures result2 == nil ==> (forall idx int :: firstSep(rawKey, idx) ==> sameSlice(result1, rawKey[idx+1:len(rawKey)]) && len(result0) == idx && (forall i int :: 0 <= i && i < idx ==> result0[i] == rawKey[i]))
